@@ -671,7 +671,8 @@ def selftest():
                 bs[0]["xs"] = bs[0]["xs"][1:]
                 idx.append(i)
             mut.append(e)
-        expect("SWEEP: one processed intersection node removed from the record", mut, idx, "S6")
+        # (a removed swap of two edges that meet within the rounding slack at the top of the beam is not observable)
+        expect("SWEEP: one processed intersection node removed from the record", mut, idx, "S6", frac=0.8)
         mut, idx = [], []
         for i, e in enumerate(evs, 1):
             e = json.loads(json.dumps(e))
